@@ -68,6 +68,29 @@ def long_row_alignment(rng):
     return kind, list(zip(names, rows))
 
 
+def many_lines_alignment(rng, j):
+    """alignments whose block-format files need more than 1024 / 2048 output lines, with even and odd numbers of rows and few or many blocks
+    (the writers collect their lines in a buffer that grows in steps of 1024; the first row's lines alternate with the block separators)"""
+    kind = rng.choice(["dna", "protein"])
+    alpha = gen.DNA if kind == "dna" else gen.AA
+    B = 1024 if j % 4 < 3 else 2048
+    if j % 2 == 0:
+        n = rng.choice([2, 4, 8, 16, 40]) + (j // 2) % 2                      # few rows, hundreds of blocks
+    else:
+        n = B - rng.choice([8, 9, 10, 11, 12, 20, 24, 25, 60, 61]) + (j // 2) % 2      # about B rows, few blocks
+    nblocks = max(1, (B - n - 7 + 1) // 2 + rng.randint(1, 4))
+    width = 60 * nblocks - rng.choice([0, 0, 1, 30, 59])
+    rows = []
+    for i in range(n):
+        r = gen.rand_seq(rng, alpha, width)
+        if rng.random() < 0.5:
+            a = rng.randrange(width)
+            b = min(width, a + rng.randint(1, 40))
+            r = r[:a] + "-" * (b - a) + r[b:]
+        rows.append(("r%d" % i, r))
+    return kind, rows
+
+
 def aln_args(aln):
     return " ".join("%s:%s" % (n.encode().hex(), r) for n, r in aln)
 
